@@ -140,11 +140,19 @@ Theorem C13_metadata_range : forall l from to created ty,
 Proof. exact row_of_header_range_l. Qed.
 
 (* ---- boundaries, stated openly ---- *)
-(* without prev_local_exit_root in the header: lost database + InError certificate at height > 0 => no next certificate *)
+(* without prev_local_exit_root in the header: lost database + InError certificate at height > 0 => no next certificate
+   (an error, never a wrong previous LER) *)
 Theorem C13_lost_db_inerror_without_prev_ler : forall cfg l r' hs,
-  row_of_header l = Ok r' -> h_status l = InError -> h_prev_ler l = None -> 0 < h_height l ->
+  row_of_header l = Ok r' -> h_status l = InError -> h_prev_ler l = None -> 0 < h_height l -> 0 < r_from r' ->
   next_params cfg {| s_info := [norm_row r']; s_hist := hs |} = Err ENoPrevSettled.
 Proof. exact lost_db_inerror_without_prev_ler_l. Qed.
+
+(* an InError top row with from_block 0 (what a version-0 metadata hash gives): VerifyBuildParams refuses the retry,
+   nothing is built (an error, never a wrong first block) *)
+Theorem C13_inerror_from_zero_nothing_built : forall cfg c rest hs,
+  Forall (below c) rest -> r_status c = InError -> r_from c = 0 ->
+  next_params cfg {| s_info := c :: rest; s_hist := hs |} = Err ERetryFromMismatch.
+Proof. exact inerror_from_zero_nothing_built_l. Qed.
 
 (* range wider than 2^32 blocks: the offset wraps and the rebuilt row ends too early *)
 Example C13_offset_truncation_refuted :
@@ -156,11 +164,11 @@ Proof.
 Qed.
 
 (* version-0 metadata carries only the last block: an InError certificate (blocks 6..9) rebuilt from it after a lost
-   database restarts at block 10, not 6 (legacy format; BuildCertificate writes version 2) *)
-Example C13_v0_inerror_first_block_refuted :
+   database has from_block 0, and the flow builds nothing (legacy format; BuildCertificate writes version 2) *)
+Example C13_v0_inerror_first_block_lost :
   exists l r', h_meta l = meta_encode {| m_version := 0; m_to_v0 := 9; m_from := 6; m_offset := 3; m_created := 0; m_ctype := 0 |} /\
     h_status l = InError /\ row_of_header l = Ok r' /\ r_from r' = 0 /\
-    next_params ex_cfg {| s_info := [norm_row r']; s_hist := [] |} = Ok (1, 101, 10).
+    next_params ex_cfg {| s_info := [norm_row r']; s_hist := [] |} = Err ERetryFromMismatch.
 Proof.
   exists {| h_height := 1; h_id := 12; h_status := InError; h_new_ler := 102; h_prev_ler := Some 101;
             h_meta := meta_encode {| m_version := 0; m_to_v0 := 9; m_from := 6; m_offset := 3; m_created := 0; m_ctype := 0 |} |}.
@@ -250,3 +258,4 @@ Print Assumptions C13_save_commits.
 Print Assumptions C13_metadata_roundtrip.
 Print Assumptions C13_metadata_range.
 Print Assumptions C13_lost_db_inerror_without_prev_ler.
+Print Assumptions C13_inerror_from_zero_nothing_built.
